@@ -51,3 +51,25 @@ func DebugPush(p *core.Prog, kind string) {
 		}
 	}
 }
+
+// DebugSearch prints the abstract event paths of a search function.
+func DebugSearch(p *core.Prog, rel, recv, name string) {
+	c := &Ctx{P: p, R: core.NewRun("dbg", "quick", "other")}
+	m := newSearchModel(c, "dbg")
+	fn := p.Func(rel, recv, name)
+	if m == nil || fn == nil {
+		fmt.Println("model/func missing", c.R.Obls)
+		return
+	}
+	paths, und := m.paths(fn)
+	fmt.Println("undecided:", und, "paths:", len(paths))
+	for i, sp := range paths {
+		fmt.Printf("--- path %d ret=%s panic=%v\n  facts: %s\n", i, vstrOf(sp.o.Ret), sp.o.Panic, sp.o.St.FactsString())
+		for _, e := range sp.events {
+			if e.Kind == "store" {
+				continue
+			}
+			fmt.Printf("  %s\n", e)
+		}
+	}
+}
